@@ -573,8 +573,16 @@ typedef struct {
   long aux[8];
 } slot_t;
 static slot_t * SLOT;           /* this worker's slot (shared with the pool parent) */
+/* smaller = simpler reproducer.  The option settings are ranked by their place in the quick list (a subset of the
+   thorough grid), so that both tiers name the same minimal case. */
+static int opt_rank(const ropt_t * o) {
+  static ropt_t q[16]; static int nq = -1;
+  if (nq < 0) { ropt_t save[96]; int n = NOPTS; memcpy(save, OPTS, sizeof save); make_opts(0); nq = NOPTS; memcpy(q, OPTS, sizeof(ropt_t) * nq); memcpy(OPTS, save, sizeof save); NOPTS = n; }
+  for (int i = 0; i < nq; i++) if (!memcmp(&q[i], o, sizeof *o)) return i;
+  return 20 + CASE.oi % 70;
+}
 static long case_rank(void) {
-  return (long)strlen(CASE.p->str) * 100000000L + CASE.W * 10000000L + CASE.s->nsteal * 1000000L + (CASE.oi % 100) * 10000L
+  return (long)strlen(CASE.p->str) * 100000000L + CASE.W * 10000000L + CASE.s->nsteal * 1000000L + opt_rank(&CASE.opt) * 10000L
     + (CASE.tm.pat * 2 + (1 - CASE.tm.gap)) * 100L + CASE.imp * 10 + CASE.nf;
 }
 /* cls: the stable class of the disagreement (key prefix, ends with the counter / site it is about) */
